@@ -28,7 +28,9 @@ var _ Item = (*ListItem)(nil)
 
 // NewListItem creates a new ListItem containing the given child items.
 //
-// nil children are silently skipped. If the total
+// nil children are silently skipped, and so are EmptyItem children: an EmptyItem stands
+// for "no item" and has no SECS-II encoding, so it cannot be an element of a list (counting
+// it in the list header while emitting no bytes for it produced an undecodable body). If the total
 // child count exceeds MaxByteSize, a deferred error is stored on the returned
 // item; call Error() to inspect it.
 //
@@ -52,6 +54,10 @@ func NewListItem(values ...Item) Item {
 
 	for _, v := range values {
 		if v == nil {
+			continue
+		}
+
+		if e, ok := v.(*EmptyItem); ok && e != nil {
 			continue
 		}
 
